@@ -158,6 +158,8 @@ def run_property(pid: str, tier: str, seed: int) -> int:
             import verus_engine
             checker_cmds.append("verus <unit>.rs --output-json --time (functions cut verbatim from the scratch copy)")
             verus_engine.run_for_property(pid, tier, seed, dst, root, rep, findings)
+        if pid == "C11":
+            text_spec_selfcheck(dst, rep)
         if not rep.obligations:
             raise Undecided("no obligation was generated for this property")
     except Undecided as e:
@@ -190,6 +192,42 @@ def run_property(pid: str, tier: str, seed: int) -> int:
             print("UNDECIDED:", u.replace("\n", "\n    ")[:2500])
         return 2
     return 0
+
+
+def text_spec_selfcheck(dst, rep):
+    """The token-view specification of the emitted lines is written from the interpreter's syntax by hand (symbol tables of
+    lib/verus_engine.py).  Self-check, like the s_* units of the arithmetic oracle: for every emitting production a source line of
+    its form goes through the REAL assembler, and the line it emits through the REAL Interpreter::parse; a syntax error there
+    means the specification (or the assembler) no longer speaks the interpreter's syntax.  One sample per production: this
+    validates the specification, it proves nothing and is not counted as an obligation."""
+    import re as _re
+    import replay as replay_mod
+    import text_replay
+    import verus_engine
+    if not verus_engine.EM_INFO:
+        return
+    tool = replay_mod.build_tool(dst)
+    n = bad = 0
+    for name, (p, a, units, prods) in sorted(verus_engine.EM_INFO.items()):
+        if units is None:
+            continue
+        b = text_replay.build(p, a, units, prods)
+        if b is None:
+            continue
+        src, exp = b
+        obs = replay_mod.ask(tool, ["asm " + src.replace("\n", "\\n")])[0]
+        if not isinstance(obs, dict) or not obs.get("ok") or not obs.get("code"):
+            continue          # the sample is not a program of this form (nothing learnt)
+        line = obs["code"][-1]
+        o = replay_mod.ask(tool, ["run " + " ".join(["0"] * 14) + " 0 3 lb 16 lw 32 @tgt 1 | " + line + " ; "])[0]
+        out = str(o.get("outcome", o)) if isinstance(o, dict) else str(o)
+        n += 1
+        if _re.search(r"Unrecognized token `[^`]+`|Invalid token|Unrecognized EOF", out):
+            bad += 1
+            rep.undecided.append(f"text specification self-check: `{src.splitlines()[-1]}` is lowered to `{line}`, which the real interpreter does not parse ({out[:120]}): "
+                                 f"the token-view specification of production `{p.sig}` (or the assembler) no longer speaks the interpreter's syntax")
+    rep.extra["text_spec_selfcheck"] = {"productions_sampled": n, "lines_the_real_interpreter_did_not_parse": bad,
+                                        "what": "one source line per emitting production through the real assembler and the real Interpreter::parse (validates the hand-written token-view specification; not an obligation)"}
 
 
 def census_check(kb, rep):
